@@ -163,7 +163,7 @@ type zzMHtSnap struct {
 	table      []bucket
 	head       *entry
 	tailLink   **entry
-	slots      []zzMSlot  // every slot of every bucket chain
+	slots      []zzMSlot // every slot of every bucket chain
 	chain      []*bucket // bucket chain pointers in walk order
 }
 
